@@ -8,6 +8,7 @@ package main
 // gated single-assignment expressions. No path is ever executed.
 
 import (
+	"os"
 	"fmt"
 	"go/constant"
 	"go/token"
@@ -28,6 +29,8 @@ type Extractor struct {
 	BenignWriteTags map[string]bool
 	caseBudget      int
 	inSign          bool
+	inUnit          bool
+	ctxDepth        int
 	signActive      bool
 	signSteps       int
 	signLimit       int
@@ -124,12 +127,24 @@ func (fc *FC) errf(format string, args ...interface{}) {
 func (x *Extractor) EvalCond(c *RF, assume []Assumption) Tri {
 	s := x.S
 	assume = expandAssumptions(assume)
+	assume = x.unitPropagate(assume)
 	for _, a := range assume {
 		if a.Cond != nil && a.Cond.Equal(c) {
 			if a.True {
 				return True
 			}
 			return False
+		}
+	}
+	// the negation of an assumed condition (De Morgan forms included)
+	if nc := s.Not(c); !nc.Equal(c) {
+		for _, a := range assume {
+			if a.Cond != nil && a.Cond.Equal(nc) {
+				if a.True {
+					return False
+				}
+				return True
+			}
 		}
 	}
 	sub0 := map[AtomID]*RF{}
@@ -169,6 +184,54 @@ func (x *Extractor) EvalCond(c *RF, assume []Assumption) Tri {
 		}
 		return Unknown
 	case at.Name == "land" || at.Name == "lor":
+		// an assumed disjunction whose disjuncts all occur here makes this disjunction true
+		// (an assumed false conjunction is the disjunction of the negations); dually for land
+		for _, a := range assume {
+			if a.Cond == nil {
+				continue
+			}
+			ca := a.Cond.SingleAtom()
+			if ca == nil {
+				continue
+			}
+			var known []*RF // a disjunction known true (for lor) / the negated form for land
+			switch {
+			case ca.Name == "lor" && a.True:
+				known = ca.Args
+			case ca.Name == "land" && !a.True:
+				for _, k := range ca.Args {
+					known = append(known, s.Not(k))
+				}
+			default:
+				continue
+			}
+			// query lor(S): known ⊆ S → true. query land(S): {¬k : k ∈ known} ⊆ S → some conjunct false → false.
+			sub := true
+			for _, k := range known {
+				want := k
+				if at.Name == "land" {
+					want = s.Not(k)
+				}
+				found := false
+				for _, q := range at.Args {
+					if q.Equal(want) {
+						found = true
+						break
+					}
+				}
+				if !found {
+					sub = false
+					break
+				}
+			}
+			if sub && len(known) > 0 {
+				if at.Name == "lor" {
+					return True
+				}
+				// land(S) contains the negations of ALL disjuncts of a true disjunction: not all can hold
+				return False
+			}
+		}
 		allT, allF := true, true
 		for _, a := range at.Args {
 			switch x.EvalCond(a, assume) {
@@ -536,7 +599,15 @@ func (fc *FC) val(v ssa.Value) *RF {
 	case *ssa.Phi:
 		return fc.phi(v)
 	case *ssa.Call:
-		return fc.call(v)
+		r := fc.call(v)
+		// an application that stands for an integer result is integer-valued
+		if isIntType(v.Type()) {
+			if at := r.SingleAtom(); at != nil && at.Kind == "fn" && !at.Int && (strings.HasPrefix(at.Name, "call:") || strings.HasPrefix(at.Name, "apply")) {
+				at.Int = true
+				at.Unsigned = isUnsignedType(v.Type())
+			}
+		}
+		return r
 	case *ssa.Extract:
 		t := fc.Val(v.Tuple)
 		if at := t.SingleAtom(); at != nil && at.Name == "tuple" && v.Index < len(at.Args) {
@@ -2040,4 +2111,55 @@ func (fc *FC) copiedFrom(ms *ssa.MakeSlice) *RF {
 		}
 	}
 	return src
+}
+
+// unitPropagate: a true disjunction all but one of whose disjuncts the other
+// assumptions refute makes the remaining disjunct true (dually for a false
+// conjunction).
+func (x *Extractor) unitPropagate(assume []Assumption) []Assumption {
+	if x.inUnit || os.Getenv("GMSA_NOUNIT") != "" {
+		return assume
+	}
+	need := false
+	for _, a := range assume {
+		if a.Cond != nil {
+			if at := a.Cond.SingleAtom(); at != nil && (at.Name == "lor" && a.True || at.Name == "land" && !a.True) {
+				need = true
+			}
+		}
+	}
+	if !need {
+		return assume
+	}
+	x.inUnit = true
+	defer func() { x.inUnit = false }()
+	out := assume
+	for i, a := range assume {
+		if a.Cond == nil {
+			continue
+		}
+		at := a.Cond.SingleAtom()
+		if at == nil || !(at.Name == "lor" && a.True || at.Name == "land" && !a.True) {
+			continue
+		}
+		others := append(append([]Assumption{}, assume[:i]...), assume[i+1:]...)
+		var open []*RF
+		decided := false
+		for _, d := range at.Args {
+			t := x.EvalCond(d, others)
+			if at.Name == "lor" && t == True || at.Name == "land" && t == False {
+				decided = true // already satisfied: nothing to learn
+			}
+			if t == Unknown {
+				open = append(open, d)
+			}
+		}
+		if !decided && len(open) == 1 {
+			out = append(append([]Assumption{}, out...), Assumption{Cond: open[0], True: at.Name == "lor"})
+		}
+	}
+	if len(out) != len(assume) {
+		return expandAssumptions(out)
+	}
+	return assume
 }
